@@ -435,6 +435,13 @@ VF_MAIN
         /* and only if the replay window accepted its sequence number: either
            the window state changed, or ... (the window itself is C16.a) */
     }
+    /* the receive epoch only moves forward: going back to an epoch whose
+       records were already accepted would make every one of them fresh again
+       (epoch numbers are assumed not to wrap: 65535 handshakes) */
+    if (!(pre.expectedEpoch[0] == 0xFF && pre.expectedEpoch[1] == 0xFF))
+    {
+        VF_ASSERT(dtlsCompareEpoch(ssl->expectedEpoch, pre.expectedEpoch) != -1, "c16.expected_epoch_never_goes_back");
+    }
     if (memcmp(ssl->expectedEpoch, pre.expectedEpoch, 2) != 0)
     {
         /* the replay window is per epoch: when the expected epoch changes,
